@@ -274,6 +274,9 @@ func WriteForeign(schema *Node, plan FilePlan) ([]byte, error) {
 			splits := cp.Splits
 			if splits == nil {
 				splits = []int{len(recEntries)}
+				if len(recEntries) == 0 {
+					splits = []int{} // a row group without rows: chunks without pages
+				}
 			}
 			sum := 0
 			for _, s := range splits {
